@@ -22,4 +22,6 @@ Per44 == <<4, 4>>
 Per61 == <<6, 1>>
 Per71 == <<7, 1>>
 Per66 == <<6, 6>>
+Per7 == <<7>>
+Per8 == <<8>>
 =============================================================================
